@@ -337,14 +337,20 @@ where
                 return affected_error(input);
             }
             // TODO: maybe dynamic affection range
-            let mut affected_range = this_range.start..(this_range.end + 1);
+            // The look ahead parsers, that decide where a node or an error ends,
+            // look at up to two tokens (e.g. identifier and `:=`) behind the node.
+            const LOOK_AHEAD: usize = 2;
+            let mut affected_range = this_range.start..(this_range.end + LOOK_AHEAD);
             if input.location_offset() == this_range.start {
                 // Every token parser skips comments,
-                // so the look ahead of this node reaches over all comments that follow it.
+                // so the look ahead of this node reaches over all comments in between.
                 let mut next = this_range.len();
-                while next < input.input_len()
-                    && matches!(input[next].token_type, TokenType::Comment(_))
-                {
+                let mut look_ahead = 0;
+                affected_range.end = this_range.end;
+                while next < input.input_len() && look_ahead < LOOK_AHEAD {
+                    if !matches!(input[next].token_type, TokenType::Comment(_)) {
+                        look_ahead += 1;
+                    }
                     next += 1;
                     affected_range.end += 1;
                 }
